@@ -1790,6 +1790,7 @@ EGLPNUM_TYPENAME_QSLIB_INTERFACE int EGLPNUM_TYPENAME_QSload_basis (
 	CHECKRVALG (rval, CLEANUP);
 
 	p->factorok = 0;
+	free_cache (p);								/* the stored solution belongs to the previous basis */
 
 CLEANUP:
 
@@ -1887,6 +1888,7 @@ EGLPNUM_TYPENAME_QSLIB_INTERFACE int EGLPNUM_TYPENAME_QSload_basis_array (
 	}
 
 	p->factorok = 0;
+	free_cache (p);								/* the stored solution belongs to the previous basis */
 
 CLEANUP:
 
